@@ -37,11 +37,12 @@ CLAIMED = {
          "guard domination at accepting exits; writer/reader shape agreement between generator and validator"),
  'C09': ("Narrow structural claim: for every TMCG_Bigint operation that branches on the back end, the primitives applied on the secure (libgcrypt) path correspond, through a fixed table, to those on the plain (GMP) path with the object in the same operand position; the two back-end conversions use the same hexadecimal format; the table-based powers share exponent-length and sign handling. Four of the six clauses of C09 (numerical agreement of the power variants, square roots, prime generators, interpolation) concern computed values and are NOT decided.", "§3 C09",
          "sibling agreement between the two back-end branches of one interface (primitive correspondence table, operand roles)"),
+ 'C01': ("Partial, structural only: decides the shape conditions without which a masked card cannot open to its type, read off the value terms of a must-fact dataflow over the source: ElGamal masking is (g^r, m*h^r) and re-masking (c_1*g^r, c_2*h^r) with one exponent, generator and common key in their places, modulo p; the decryption accumulator starts as c_1^{x_i}, is multiplied by a received share only after the equality-of-discrete-logs proof for that very share, the stored key and this c_1 was accepted, and the opening is c_2*d^-1 mod p; encoder and decoder of the discrete-log encoding agree on the table of type elements (message_space[t] = IndexElement(t) = g^t mod p with the index that is accessed), the decoder searches every t in [0, 2^w) and returns the sentinel otherwise, 2^w entries are allocated; the bitwise encoding consumes the type least significant bit first (set bit = non-residue y of player 0), the decoder weights bit w with 2^w and XORs over all players, a value is masked as z*r^2*y^b mod m and a player's own secret bit is 0 exactly for quadratic residues. That every chain of maskings under every key set opens to exactly the created type (the algebraic identity, the negligible-probability clause) is NOT decided.", "§3 C01 / §9",
+         "value-term shape rules over a must-fact dataflow (symbolic GMP terms), loop-range coverage, encoder/decoder index agreement"),
  'C16': ("Partial: decides only the last sentence of C16 -- the library's own signature verifiers (threshold Schnorr: GennaroJareckiKrawczykRabinNTS::Verify, DSA: CanettiGennaroJareckiKrawczykRabinDSS::Verify) accept only what the verification equation and the range conditions accept: accepting exits are guarded by a frozen inventory (equation abstracted to the inputs it relates, range tests, invertibility) and every signature component is either compared as a whole with a recomputed reduced value or carries the range facts 0 <= x < q (no non-canonical representative x + kq is accepted). That a completed multi-party signing run yields a valid signature, and that all honest parties obtain the same one, are relations over executions and are NOT decided.", "§3 C16 / §9",
          "guard domination by must-fact dataflow against a frozen check inventory; canonical-representative rule over the accepting facts"),
 }
 NA = {
- 'C01': "algebraic identity over runtime group elements for all masking chains; no clause visible in code shape beyond what C03/C05/C08/C12 claim",
  'C15': "relation between final states of n concurrent runs under fault sequences; a property of executions, not of code shape",
 }
 PENDING = "rule module not built yet in this revision (planned, see DESIGN.md §3)"
